@@ -13,6 +13,13 @@ CONSTANTS
   ChildPoss <- CP_Few
   ChildRots <- R_Rz
   TotalMasses <- TM_Off
+  Groups <- G_Zero
+  Ranges <- RG_All
+  MaxCompiles = 1
+  MaxEdits = 0
+  EditKinds <- E_None
+  Hows <- HW_Both
+  Design = "group"
   Rand = FALSE
 INVARIANT TypeOK
 INVARIANT GeomTensorProper
@@ -23,5 +30,7 @@ INVARIANT TensorProper
 INVARIANT TriangleOnDirections
 INVARIANT SingleGeom
 INVARIANT Published
+INVARIANT HistoryIndependent
+INVARIANT UnselectedCountsNothing
 INVARIANT NegComAtFirstGeom
 CHECK_DEADLOCK FALSE
